@@ -23,10 +23,11 @@ PROGRAMS = {
     },
     "mixed": {
         "lits": {"o": ("H4", 256, 60000), "v": ("D3", 0, 255), "x": ("N3", -128, 127)},
-        "body": [("", "ORG", "{o}"), ("K1", "EQU", "$20"), ("A1", "LDA", "#{v}"), ("", "STA", "<K1"), ("A2", "LDB", "{x},U"),
+        "body": [("", "ORG", "{o}"), ("K1", "EQU", "$20"), ("KOFF", "EQU", "3"), ("A1", "LDA", "#{v}"), ("", "STA", "<K1"), ("A2", "LDB", "{x},U"),
+                 ("", "LDA", "KOFF,U"), ("", "LDB", "K1,Y"),
                  ("", "PSHS", "A,B,X"), ("", "TFR", "X,Y"), ("A3", "LDX", "#A1"), ("", "STX", "A4"), ("", "BSR", "A5"),
                  ("", "PULS", "A,B,X,PC"), ("A4", "FDB", "$FFFF"), ("A5", "INC", "A4"), ("", "LBRA", "A2"), ("A6", "SWI", "")],
-        "abs": {7: "A1", 8: "A4", 12: "A4"},
+        "abs": {10: "A1", 11: "A4", 15: "A4"},
     },
 }
 
